@@ -788,6 +788,10 @@ func c16Menu() []sim.TxSpec {
 	}
 	m = append(m, deploy("U0", counterInit, "0"))
 	m = append(m, chk(tr("U0", "U1", "1")), chk(call("W", "contract:0", "", "0")))
+	// native transactions of the types whose receiver field is free, ADDRESSED to a contract account: still native, still charged
+	m = append(m, with(setdoc("U1", "n", "u"), func(s *sim.TxSpec) { s.To = "contract:0" }, "addressed to the contract"),
+		with(wdr("V0", "1"), func(s *sim.TxSpec) { s.To = "contract:0" }, "addressed to the contract"),
+		with(setdoc("V0", "v", "u"), func(s *sim.TxSpec) { s.To = "contract:0" }, "by the proposer, addressed to the contract"))
 	// the block proposer itself takes part in a contract transaction (as sender, as value receiver, as deployer):
 	// the EVM's own coinbase accounting must stay switched off, the proposer is paid once, at the end of the block
 	m = append(m, deploy("V0", counterInit, "0"), call("V0", "contract:0", "", "0"), call("U1", "V0", "", "1R"), call("U1", "V1", "", "1R"), deploy("V1", counterInit, "1R"), call("V1", "contract:0", "", "1R"))
